@@ -420,8 +420,13 @@ impl<'s> Tokenizer<'s> {
     fn syntax_error(&mut self, msg: &'static str) -> Error {
         let mut span = self.span(self.loc());
         if span.start_col == span.end_col {
-            span.end_col += 1;
-            span.end_offset += 1;
+            // widen the empty span so that it covers the character the error points
+            // at.  The range must stay a valid slice of the source: it grows by the
+            // whole (potentially multi-byte) character and not at all at the end of
+            // the input.  Columns saturate like everywhere else in the lexer.
+            span.end_col = span.end_col.saturating_add(1);
+            let next_char_len = self.rest().chars().next().map_or(0, char::len_utf8);
+            span.end_offset += next_char_len as u32;
         }
         let mut err = Error::new(ErrorKind::SyntaxError, msg);
         err.set_filename_and_span(self.filename, span);
